@@ -209,6 +209,10 @@ func ApplyFSFault(root string, tree []TreeEntry, f *FSFault) (restore func() err
 		err = os.WriteFile(p, fillBytes(0x1234567, 700), 0o600)
 	case "empty":
 		err = os.WriteFile(p, nil, 0o600)
+	case "unreadable":
+		// mode 000: opening (a file) or listing (a directory) is denied once
+		// the DAC capabilities are dropped (see WithoutFilePrivileges)
+		err = os.Chmod(p, 0)
 	case "eio":
 		// a file that opens but whose read(2) fails with EIO, in-process and
 		// without hooks: /proc/self/mem read at offset 0
